@@ -2430,6 +2430,13 @@ class BlockwiseTail(Tail, Blockwise):
     the last `n` rows of an entire collection.
     """
 
+    def _simplify_down(self):
+        # Already lowered: do not push an (abstract) Tail below again
+        return
+
+    def _simplify_up(self, parent, dependents):
+        return
+
     def _divisions(self):
         return self.frame.divisions
 
